@@ -5,7 +5,8 @@
 (*                                                                                     *)
 (* Abstract cell values: task index, seconds from project start or Null (-1) for a      *)
 (* date, effort in seconds, priority, cost in 1/100 currency units.                     *)
-(*   Rows(def, S)  == tasks of S in declaration order (leaves only if def.leafOnly),    *)
+(*   Rows(def, S)  == tasks of S in declaration order (leaves only if def.leafOnly,     *)
+(*                    without those def.hide selects),                                   *)
 (*                    one cell per column                                               *)
 (*   Generate      == sched' = sched   (any number of times, any format)                *)
 (* Observations of the real report code come from IOEnv.REP_FILE, one JSON object each: *)
@@ -20,9 +21,17 @@ EXTENDS Integers, Sequences, FiniteSets, TLC, Json, IOUtils
 Obs == ndJsonDeserialize(IOEnv.REP_FILE)
 Null == -1
 
+\* hidetask: "" (no statement) and "@none" hide nothing, "@all" everything, a flag name the tasks that carry the flag,
+\* "~flag" those that do not (flags as the generator assigned them)
+HasFlag(T, f) == \E i \in 1..Len(T.flags) : T.flags[i] = f
+Hidden(o, t) == LET h == o.def.hide IN
+   IF h = "" \/ h = "@none" THEN FALSE
+   ELSE IF h = "@all" THEN TRUE
+   ELSE IF SubSeq(h, 1, 1) = "~" THEN ~HasFlag(o.tasks[t], SubSeq(h, 2, Len(h)))
+   ELSE HasFlag(o.tasks[t], h)
 Listed(o) == LET n == Len(o.tasks)
                  F[i \in 0..n] == IF i = 0 THEN <<>>
-                                  ELSE IF o.def.leafOnly /\ ~o.tasks[i].leaf THEN F[i-1] ELSE Append(F[i-1], i)
+                                  ELSE IF (o.def.leafOnly /\ ~o.tasks[i].leaf) \/ Hidden(o, i) THEN F[i-1] ELSE Append(F[i-1], i)
              IN F[n]
 Cell(o, t, c) ==
   LET T == o.tasks[t] IN
